@@ -15,6 +15,20 @@ CHECKS = {
         "Trusted: Coq kernel; Reals axioms (sig_forall_dec, functional_extensionality_dep); the hand-written model is tied to the code only by the exact differential check; float64 exactness filter; lax.scan modelled as fold_right.",
         "DESIGN.md §5 C03",
     ),
+    "C01": (
+        "Coq proof (refinement of the Gym-style API to an episodic interpreter, induction over action lists and wrapper stacks) + exact correspondence on finite MDPs evaluated in Coq",
+        "Theorems for every environment record, wrapper stack, state, action and key path: one-step contract of step/reset, refinement of any finite API trace to concatenated episodes of an interpreter without auto-reset, only the last step of an episode is flagged, reset states have all TimeLimit counters at 0, reset key distinct from the other keys. "
+        "Tie: real jitted env.reset/env.step on random finite MDPs under random stacks of all 11 wrappers vs the executable model, compared in Coq.",
+        "Trusted: Coq kernel (closed under the global context); hand-written model of base_env.py:240-286 and wrapper/*.py tied by exact differential check; jr.split modelled as key paths with a tabulated draw oracle; built-in environments enter only through the polymorphic theorems (their components are arbitrary functions).",
+        "DESIGN.md §5 C01",
+    ),
+    "C13": (
+        "Coq proof (induction over arbitrary wrapper stacks; real-number algebra for rescale_box) + exact correspondence of every functional component on finite MDPs evaluated in Coq",
+        "Theorems for all stacks/environments/states: complete characterisation of a wrapped environment (mapped action for dynamics, reward and info; only observation/reward post-processed; truncation = inner or some TimeLimit reached; masks/infos/unwrapped/space pass-through), TimeLimit exact for every N and history, counters restart, rescale affine and bound-exact over R, adapters = Gym API under their key schedule. "
+        "Tie: all components of wrapped stub MDPs, truncate() along histories, constructibility of every documented wrapper, LeraxToGymEnv/LeraxToGymnaxEnv vs the model; GymToLeraxEnv/GymnaxToLeraxEnv by twin runs.",
+        "Trusted: Coq kernel; Reals axioms for the rescale lemmas only; model tied by exact differential check; float rounding of the affine map and the foreign-environment adapters are explored, not proved.",
+        "DESIGN.md §5 C13",
+    ),
 }
 
 NOT_YET = "check not built yet in this round (planned: see DESIGN.md §5)"
